@@ -126,3 +126,14 @@ Theorem C12_memory_store_offsets_are_a_map : forall s id id' o,
   (id <> id' -> StoreModel.mem_load (StoreModel.mem_save s id o) id' = StoreModel.mem_load s id').
 Proof. exact ResubLink.memory_store_offsets_are_a_map. Qed.
 Print Assumptions C12_memory_store_offsets_are_a_map.
+
+(* REFUTED for the code as it is (known finding F10c): with two publishers overlapping, the live handler of event 2
+   saves the offset of event 3 (bus.lastOffset is shared), the process dies before event 3 is handled, and after the
+   restart event 3 is never delivered to the subscription.  Outside the sequential histories of the theorems above. *)
+Theorem C12_overlapping_publishers_refuted :
+  let s1 := run fixed [0] [(OPub 0 1, clean); (OSub 0 [], clean)] init in
+  let s2 := overlap_crash s1 0 2 3 in
+  let s3 := run fixed [0] [(ORestart, clean); (OSub 0 [], clean); (OPub 0 4, clean); (ORestart, clean); (OSub 0 [], clean)] s2 in
+  map e_val (log s3) = [1; 2; 3; 4] /\ for_id 0 (dels s3) = [4; 2; 1] /\ get_saved s3 0 = 4.
+Proof. exact overlapping_publishers_lose_an_event. Qed.
+Print Assumptions C12_overlapping_publishers_refuted.
